@@ -23,6 +23,7 @@ func AllMonitors() []Monitor {
 		&MonC11{},
 		&MonC14{},
 		&MonC15{},
+		&MonC16{},
 	}
 }
 
@@ -222,3 +223,17 @@ func planC11(w *World, spec RunSpec) {
 	w.Disturb(w.Cfg.Ndist)
 	w.finish()
 }
+
+func planPkgSmoke(w *World, spec RunSpec) {
+	s := w.Scn
+	w.setupCommon(0)
+	w.Cfg.Packages = true
+	w.drawFaultMix("err-before", "lost-response", "crash", "compaction", "duplicate", "pull-error")
+	w.Cfg.Ndist = 100 + s.Intn(400, "ndist")
+	w.Scenario = GenPKG(w, 4)
+	w.StartProcesses()
+	w.Disturb(w.Cfg.Ndist)
+	w.finish()
+}
+
+func init() { Plans["PKG"] = planPkgSmoke; Plans["C16"] = planPkgSmoke }
